@@ -34,10 +34,12 @@ pub fn k_mul_add_carry() {
 }
 
 /// mul_word_in_place_with_carry on N words: words*rhs + carry
-pub fn k_mul_word<const N: usize>() {
+pub fn k_mul_word<const N: usize>(lit: Word) {
     let mut a: Box<[Word; N]> = Box::new(nd::any());
     let a0: [Word; N] = *a;
-    let rhs: Word = nd::any();
+    // lit != 0: the multiplier is this literal (symbolic x constant products are easy for the solver,
+    // symbolic x symbolic 64-bit products are not: DESIGN 0.2 (l))
+    let rhs: Word = if lit != 0 { lit } else { nd::any() };
     let cin: Word = nd::any();
     let cout = kmul::mul_word_in_place_with_carry(&mut a[..], rhs, cin);
     let mut carry = if rhs == 0 { 0 } else { cin };
@@ -56,11 +58,11 @@ pub fn k_mul_word<const N: usize>() {
 }
 
 /// add_mul_word_same_len_in_place: words += mult * rhs, returns carry
-pub fn k_add_mul_word<const N: usize>() {
+pub fn k_add_mul_word<const N: usize>(lit: Word) {
     let mut a: Box<[Word; N]> = Box::new(nd::any());
     let a0: [Word; N] = *a;
     let b: [Word; N] = nd::any();
-    let mult: Word = nd::any();
+    let mult: Word = if lit != 0 { lit } else { nd::any() };
     let cout = kmul::add_mul_word_same_len_in_place(&mut a[..], mult, &b);
     let mut carry: Word = 0;
     let mut i = 0;
@@ -75,11 +77,11 @@ pub fn k_add_mul_word<const N: usize>() {
 
 /// sub_mul_word_same_len_in_place: words -= mult * rhs, returns borrow word:
 /// checked by the identity  result + mult*rhs == words + borrow * B^N  (products as in the kernel)
-pub fn k_sub_mul_word<const N: usize>() {
+pub fn k_sub_mul_word<const N: usize>(lit: Word) {
     let mut a: Box<[Word; N]> = Box::new(nd::any());
     let a0: [Word; N] = *a;
     let b: [Word; N] = nd::any();
-    let mult: Word = nd::any();
+    let mult: Word = if lit != 0 { lit } else { nd::any() };
     let borrow = kmul::sub_mul_word_same_len_in_place(&mut a[..], mult, &b);
     // recompute result + mult*b limb by limb
     let mut carry: Word = 0;
@@ -95,9 +97,18 @@ pub fn k_sub_mul_word<const N: usize>() {
 
 /// schoolbook add_signed_mul through the size dispatch (or directly): c += sign * a * b.
 /// `full`: words fully symbolic, otherwise structured with k-bit payloads.
-pub fn k_simple<const NA: usize, const NB: usize, const NC: usize>(sign: Sign, full: bool, k: u32) {
+pub fn k_simple<const NA: usize, const NB: usize, const NC: usize>(sign: Sign, full: bool, k: u32, blit: Option<[Word; NB]>) {
     let a: [Word; NA] = if full { nd::any() } else { smag::<NA>(k) };
-    let b: [Word; NB] = if full { nd::any() } else { smag::<NB>(k) };
+    let b: [Word; NB] = match blit {
+        Some(b) => b,
+        None => {
+            if full {
+                nd::any()
+            } else {
+                smag::<NB>(k)
+            }
+        }
+    };
     let c0: [Word; NC] = if full { nd::any() } else { smag::<NC>(k) };
     let mut c: Box<[Word; NC]> = Box::new(c0);
     let mut alloc = MemoryAllocation::new(kmul::memory_requirement_exact(NC, NB));
@@ -114,10 +125,14 @@ pub fn k_simple<const NA: usize, const NB: usize, const NC: usize>(sign: Sign, f
 }
 
 /// Karatsuba kernel called directly (bypassing the threshold) vs the schoolbook oracle
-pub fn k_karatsuba<const N: usize, const NC: usize>(sign: Sign, k: u32) {
-    let a: [Word; N] = smag::<N>(k);
-    let b: [Word; N] = smag::<N>(k);
-    let c0: [Word; NC] = smag::<NC>(k);
+pub fn k_karatsuba<const N: usize, const NC: usize>(sign: Sign, k: u32, blit: Option<[Word; N]>) {
+    // with a literal b: a and the accumulator are fully symbolic
+    let a: [Word; N] = if blit.is_some() { nd::any() } else { smag::<N>(k) };
+    let b: [Word; N] = match blit {
+        Some(b) => b,
+        None => smag::<N>(k),
+    };
+    let c0: [Word; NC] = if blit.is_some() { nd::any() } else { smag::<NC>(k) };
     let mut c: Box<[Word; NC]> = Box::new(c0);
     let mut alloc = MemoryAllocation::new(kmul::verif_algos::karatsuba_layout(N));
     let carry = kmul::verif_algos::karatsuba_same_len(&mut c[..], sign, &a, &b, &mut alloc.memory());
@@ -144,10 +159,13 @@ pub fn k_sqr<const N: usize, const NC: usize>(full: bool, k: u32) {
 }
 
 /// mul_dword_in_place (structured): words * rhs, rhs a genuine double word
-pub fn k_mul_dword<const N: usize, const NC: usize>(k: u32) {
-    let a0: [Word; N] = smag::<N>(k);
+pub fn k_mul_dword<const N: usize, const NC: usize>(k: u32, rlit: Option<[Word; 2]>) {
+    let a0: [Word; N] = if rlit.is_some() { nd::any() } else { smag::<N>(k) };
     let mut a: Box<[Word; N]> = Box::new(a0);
-    let r: [Word; 2] = smag::<2>(k);
+    let r: [Word; 2] = match rlit {
+        Some(r) => r,
+        None => smag::<2>(k),
+    };
     let rhs = verif::primitive::double_word(r[0], r[1]);
     let carry = kmul::mul_dword_in_place(&mut a[..], rhs);
     let mut p = [0 as Word; NC]; // NC = N + 2
@@ -160,16 +178,26 @@ pub fn k_mul_dword<const N: usize, const NC: usize>(k: u32) {
 // ------------------------------------------------------------------ operators from shapes
 
 /// UBig * UBig, structured contents (k-bit payloads) or full width; M = NA + NB
-pub fn mul_u<const NA: usize, const NB: usize, const M: usize>(form: u8, full: bool, k: u32) {
-    let a: [Word; NA] = if full { any_mag::<NA>() } else { smag::<NA>(k) };
-    let b: [Word; NB] = if full { any_mag::<NB>() } else { smag::<NB>(k) };
+pub fn mul_u<const NA: usize, const NB: usize, const M: usize>(form: u8, full: bool, k: u32, blit: Option<[Word; NB]>, swap: bool) {
+    // blit: the second operand is a literal and the first one fully symbolic; swap: literal on the left
+    let a: [Word; NA] = if full || blit.is_some() { any_mag::<NA>() } else { smag::<NA>(k) };
+    let b: [Word; NB] = match blit {
+        Some(b) => b,
+        None => {
+            if full {
+                any_mag::<NB>()
+            } else {
+                smag::<NB>(k)
+            }
+        }
+    };
     let mut m = [0 as Word; M];
     if NA >= NB {
         oracle::mul(&a, &b, &mut m);
     } else {
         oracle::mul(&b, &a, &mut m);
     }
-    let (x, y) = (ubig(&a), ubig(&b));
+    let (x, y) = if swap { (ubig(&b), ubig(&a)) } else { (ubig(&a), ubig(&b)) };
     let r = match form {
         0 => x * y,
         1 => &x * &y,
@@ -214,9 +242,12 @@ pub fn sqr_u<const N: usize, const M: usize, const M3: usize>(which: u8, k: u32)
 }
 
 /// IBig * IBig: sign rule and zero, structured magnitudes
-pub fn mul_i<const NA: usize, const NB: usize, const M: usize>(sa: Sign, sb: Sign, form: u8, k: u32) {
-    let a: [Word; NA] = smag::<NA>(k);
-    let b: [Word; NB] = smag::<NB>(k);
+pub fn mul_i<const NA: usize, const NB: usize, const M: usize>(sa: Sign, sb: Sign, form: u8, k: u32, blit: Option<[Word; NB]>) {
+    let a: [Word; NA] = if blit.is_some() { any_mag::<NA>() } else { smag::<NA>(k) };
+    let b: [Word; NB] = match blit {
+        Some(b) => b,
+        None => smag::<NB>(k),
+    };
     let sa = if NA == 0 { POS } else { sa };
     let sb = if NB == 0 { POS } else { sb };
     let mut m = [0 as Word; M];
@@ -242,9 +273,12 @@ pub fn mul_i<const NA: usize, const NB: usize, const M: usize>(sa: Sign, sb: Sig
 }
 
 /// mixed UBig * IBig forms
-pub fn mul_mixed<const NA: usize, const NB: usize, const M: usize>(sb: Sign, which: u8, k: u32) {
-    let a: [Word; NA] = smag::<NA>(k);
-    let b: [Word; NB] = smag::<NB>(k);
+pub fn mul_mixed<const NA: usize, const NB: usize, const M: usize>(sb: Sign, which: u8, k: u32, blit: Option<[Word; NB]>) {
+    let a: [Word; NA] = if blit.is_some() { any_mag::<NA>() } else { smag::<NA>(k) };
+    let b: [Word; NB] = match blit {
+        Some(b) => b,
+        None => smag::<NB>(k),
+    };
     let sb = if NB == 0 { POS } else { sb };
     let mut m = [0 as Word; M];
     if NA >= NB {
